@@ -425,6 +425,12 @@ func TestC20F_KQuai(t *testing.T) {
 			if out.Sign() < 0 {
 				fail("C20/F/kquai/negative", fmt.Sprintf("rate %v", out))
 			}
+			// the block number matters only inside the slow-down window
+			if !(num.Sign() > 0 && block > params.KQuaiChangeBlock && block < params.KawPowForkBlock) {
+				if ref := call(xb, 10); ref.Cmp(out) != 0 {
+					fail("C20/F/kquai/block-number-matters-outside-slowdown-window", fmt.Sprintf("block %d gives %v, block 10 gives %v", block, out, ref))
+				}
+			}
 			// slowed increase
 			if num.Sign() > 0 && block > params.KQuaiChangeBlock && block < params.KawPowForkBlock {
 				labels = append(labels, "slowed_increase")
